@@ -191,6 +191,22 @@ def pnext (fv : Nat) (autoPage : Bool) : List Bytes → PScanner → PNextOut
 def pscannerScan (s : PScanner) (dests : List Bool) : ScannerScanOut :=
   Scanner.scan { it := s.q.it, cols := s.cols, valid := s.valid } dests
 
+/-- `sc := iter.Scanner(); for sc.Next() { sc.Scan(dests...) }`: the calls of every row up to the first `Next() == false`,
+    the scanner and the unused answers then; `none`: out of fuel, a panic, or a Scan that returned an error -/
+def pdrainS (fv : Nat) (dests : List Bool) : Nat → List Bytes → PScanner → Option (List (List Call) × PScanner × List Bytes)
+  | 0, _, _ => none
+  | n + 1, fut, s =>
+    match pnext fv true fut s with
+    | .ok s' fut' false => some ([], s', fut')
+    | .ok s' fut' true =>
+      (match pscannerScan s' dests with
+       | .ok s'' calls =>
+         (match pdrainS fv dests n fut' { s' with cols := s''.cols, valid := s''.valid } with
+          | some (cs, s3, f) => some (calls :: cs, s3, f)
+          | none => none)
+       | _ => none)
+    | .crash => none
+
 /-! ## the one-row conveniences: Query.Scan, Query.ScanCAS, Query.MapScanCAS (session.go:1337-1394) -/
 
 /-- the error these calls return: nil, ErrNotFound, or `iter.err` -/
@@ -203,7 +219,20 @@ deriving Repr
 /-- iter.Close() -/
 def closeErr (q : QIter) : QErr := match q.err with | none => .nil | some e => .iter e
 
-/-- Query.Scan(dest...): `checkErrAndNotFound`, ONE Iter.Scan whose result is ignored, `iter.Close()`.
+/-- Iter.checkErrAndNotFound's loop (session.go:1683-1685, since the repair of KF-C15-4): while the page is empty,
+    without error, and announces more, the iterator BECOMES the next page's. `none` = a panic. The conveniences below
+    then look at `iter.err` / `iter.numRows == 0` of the page reached. -/
+def skipEmpty (fv : Nat) (autoPage : Bool) : List Bytes → QIter → Option (QIter × List Bytes)
+  | [], q => if !q.it.failed && q.it.numRows == 0 && q.more then some (exhaustedQ, []) else some (q, [])
+  | w :: ws, q =>
+    if !q.it.failed && q.it.numRows == 0 && q.more then
+      match step1 fv autoPage w with
+      | .iter q' => skipEmpty fv autoPage ws q'
+      | .again => skipEmpty fv autoPage ws q
+      | .crash => none
+    else some (q, w :: ws)
+
+/-- Query.Scan(dest...): `checkErrAndNotFound` (its loop is `skipEmpty`, applied by the caller), ONE Iter.Scan whose result is ignored, `iter.Close()`.
     `none` = a panic. (numRows > 0 and pos = 0: no page is fetched.) -/
 def queryScan (q : QIter) (dests : List Bool) : Option (List Call × QErr) :=
   if q.it.failed then some ([], closeErr q)
@@ -212,6 +241,16 @@ def queryScan (q : QIter) (dests : List Bool) : Option (List Call × QErr) :=
     | .row q' _ calls => some (calls, closeErr q')
     | .stop q' _ calls => some (calls, closeErr q')
     | .crash => none
+
+/-- Query.MapScan(m) with an empty map, columns of blob / ascii / text / varchar type: `checkErrAndNotFound` (skipEmpty,
+    by the caller), ONE Iter.MapScan whose result is ignored, `iter.Close()` -/
+def queryMapScan (q : QIter) : Option (List (Bytes × Bytes) × QErr) :=
+  if q.it.failed then some ([], closeErr q)
+  else if q.it.numRows == 0 then some ([], .notFound)
+  else match mapScan q.it with
+    | .crash => none
+    | .stop it' => some ([], if it'.failed then .iter .scan else closeErr q)
+    | .row _ m => some (m.map (fun kv => (kv.1, kv.2.getD [])), closeErr q)
 
 /-- marshal.go decBool -/
 def decBool : Option Bytes → Bool
@@ -237,18 +276,26 @@ def scanCAS (q : QIter) (ndests : Nat) : Option (Bool × List Call × QErr) :=
         if c0.dest == 0 && !isBoolean c0.typ then some (false, [], .iter .scan)
         else some (decBool c0.data, more.map (fun c => { c with dest := c.dest - 1 }), closeErr q')
 
+/-- is the LAST plain column called `[applied]` boolean (`dest["[applied]"]` then holds a Go bool)? -/
+def appliedIsBool (cols : List ColumnInfo) : Bool :=
+  match (cols.filter (fun c => c.name == [0x5B, 0x61, 0x70, 0x70, 0x6C, 0x69, 0x65, 0x64, 0x5D])).getLast? with
+  | some c => isBoolean c.typ
+  | none => false
+
 /-- Query.MapScanCAS(map) with an empty map, columns of boolean / blob / ascii / text / varchar type (the typed value
-    is the cell's bytes): `iter.MapScan(dest)`, then `dest["[applied]"].(bool)` — a PANIC when MapScan returned false
-    (nothing was stored) or when no column is called `[applied]` -/
+    is the cell's bytes), AFTER the repair of KF-C04-8: `iter.MapScan(dest)`, then `applied, ok := dest["[applied]"].(bool)`;
+    when MapScan returned false (nothing stored) or the result has no boolean `[applied]` column: (false, iter.Close()'s
+    error, or "no boolean [applied] column" when there is none), the map as MapScan left it. A panic (`none`) only
+    where Iter.MapScan itself panics. -/
 def mapScanCAS (q : QIter) : Option (Bool × List (Bytes × Bytes) × QErr) :=
   if q.it.failed then some (false, [], closeErr q)
   else if q.it.numRows == 0 then some (false, [], .notFound)
   else match mapScan q.it with
     | .crash => none
-    | .stop _ => none                                  -- dest["[applied]"] is nil: interface conversion panics
+    | .stop _ => some (false, [], .iter .scan)
     | .row _ m =>
-      match m.lookup [0x5B, 0x61, 0x70, 0x70, 0x6C, 0x69, 0x65, 0x64, 0x5D] with
-      | none => none                                   -- the same panic
-      | some v => some (decBool v, (m.filter (fun kv => kv.1 != [0x5B, 0x61, 0x70, 0x70, 0x6C, 0x69, 0x65, 0x64, 0x5D])).map (fun kv => (kv.1, kv.2.getD [])), closeErr q)
+      match m.lookup [0x5B, 0x61, 0x70, 0x70, 0x6C, 0x69, 0x65, 0x64, 0x5D], appliedIsBool q.it.md.columns with
+      | some v, true => some (decBool v, (m.filter (fun kv => kv.1 != [0x5B, 0x61, 0x70, 0x70, 0x6C, 0x69, 0x65, 0x64, 0x5D])).map (fun kv => (kv.1, kv.2.getD [])), closeErr q)
+      | _, _ => some (false, m.map (fun kv => (kv.1, kv.2.getD [])), .iter .scan)
 
 end Paged
